@@ -8,7 +8,7 @@
 (* per event) instead of stopping, so that one run classifies the whole    *)
 (* trace.  Acceptance: every line consumed (POSTCONDITION).                *)
 (***************************************************************************)
-EXTENDS Stream, Json, IOUtils
+EXTENDS StreamModel, Json, IOUtils
 
 CONSTANT Props          \* the property ids to evaluate, e.g. {"C01", "C04"}
 
@@ -29,87 +29,7 @@ Emit(fails, nts) ==
     IF fails = {} /\ nts = {} THEN TRUE
     ELSE PrintT(ToJson([ev |-> l, fails |-> fails, nt |-> nts]))
 
-(***************************************************************************)
-(* C12 on tagged sessions: the tag names a base line / header, the element *)
-(* replaced and the replacement.  The specification re-derives the         *)
-(* corrupted input and whether it qualifies; nothing is trusted.           *)
-(***************************************************************************)
-C12v1(b, v) ==
-    LET base == tag.base
-        elem == tag.elem
-        repl == tag.repl
-        qualifies == V1!AcceptedLen(base) = Len(base) /\ Len(base) > 0 /\ V1!InvalidFor(base, elem, repl)
-        corrupted == V1!Corrupted(base, elem, repl)
-        kind == V1!KindFor(elem)
-        check(e) ==
-            LET o == v[e]
-            IN  IF ~Applicable(v, e) THEN {}
-                ELSE IF o.k = "panic" THEN {}
-                ELSE IF IsOk(o) THEN {<< "C12", "corrupted-line-accepted", e >>}
-                ELSE IF o.inc THEN {<< "C12", "not-terminal", e >>}
-                ELSE IF o.e # kind THEN {<< "C12", "wrong-kind", e >>}
-                ELSE {}
-        autoCheck ==
-            LET o == v["auto"]
-            IN  IF o.k = "panic" THEN {}
-                ELSE IF IsOk(o) THEN {<< "C12", "corrupted-line-accepted", "auto" >>}
-                ELSE IF o.inc THEN {<< "C12", "not-terminal", "auto" >>}
-                ELSE IF o.tag # "V1" \/ o.r.e # kind THEN {<< "C12", "wrong-kind", "auto" >>}
-                ELSE {}
-    IN  IF ~qualifies \/ Len(b) # Len(corrupted) THEN [f |-> {}, nt |-> FALSE]
-        ELSE IF b # corrupted THEN [f |-> {<< "BIND", "c12-input-is-not-the-corruption", "v1b" >>}, nt |-> FALSE]
-        ELSE [f |-> check("v1b") \cup (IF elem = "utf8" THEN {} ELSE check("v1s") \cup check("v1fh") \cup check("v1fa")) \cup autoCheck,
-              nt |-> TRUE]
-
-C12v2(b, v) ==
-    LET base == Flat(tag.base)
-        elem == tag.elem
-        val == tag.val
-        idx == tag.idx
-        wf == V2!WellFormed(base) /\ Len(base) = V2!HeaderLen(base)
-        fam == V2!Hi(base[14])
-        invalid ==
-            CASE elem = "sig" -> idx \in 1..12 /\ val \in 0..255 /\ val # base[idx]
-              [] elem = "version" -> val \in 0..15 /\ val # 2
-              [] elem = "command" -> val \in 2..15
-              [] elem = "family" -> val \in 4..15
-              [] elem = "transport" -> val \in 3..15
-              [] elem = "length" -> val < V2!FamilySize(fam)
-              [] OTHER -> FALSE
-        corrupted ==
-            CASE elem = "sig" -> [base EXCEPT ![idx] = val]
-              [] elem = "version" -> [base EXCEPT ![13] = val * 16 + V2!Lo(base[13])]
-              [] elem = "command" -> [base EXCEPT ![13] = V2!Hi(base[13]) * 16 + val]
-              [] elem = "family" -> [base EXCEPT ![14] = val * 16 + V2!Lo(base[14])]
-              [] elem = "transport" -> [base EXCEPT ![14] = V2!Hi(base[14]) * 16 + val]
-              [] OTHER -> [base EXCEPT ![15] = val \div 256, ![16] = val % 256]
-        expected ==
-            CASE elem = "sig" -> [e |-> "Prefix", a |-> 0, b |-> 0]
-              [] elem = "version" -> [e |-> "Version", a |-> val * 16, b |-> 0]
-              [] elem = "command" -> [e |-> "Command", a |-> val, b |-> 0]
-              [] elem = "family" -> [e |-> "AddressFamily", a |-> val * 16, b |-> 0]
-              [] elem = "transport" -> [e |-> "Protocol", a |-> val, b |-> 0]
-              [] OTHER -> [e |-> "InvalidAddresses", a |-> val, b |-> V2!FamilySize(fam)]
-        o == v["v2"]
-        two == IF o.k = "panic" THEN {}
-               ELSE IF IsOk(o) THEN {<< "C12", "corrupted-header-accepted", "v2" >>}
-               ELSE IF o.inc THEN {<< "C12", "not-terminal", "v2" >>}
-               ELSE IF o.e # expected.e \/ o.a # expected.a \/ o.b # expected.b THEN {<< "C12", "wrong-kind-or-payload", "v2" >>}
-               ELSE {}
-        a == v["auto"]
-        auto == IF a.k = "panic" THEN {}
-                ELSE IF IsOk(a) THEN {<< "C12", "corrupted-header-accepted", "auto" >>}
-                ELSE IF a.inc THEN {<< "C12", "not-terminal", "auto" >>}
-                ELSE {}
-    IN  IF ~(wf /\ invalid) \/ Len(b) # Len(base) THEN [f |-> {}, nt |-> FALSE]
-        ELSE IF b # corrupted THEN [f |-> {<< "BIND", "c12-input-is-not-the-corruption", "v2" >>}, nt |-> FALSE]
-        ELSE [f |-> two \cup auto, nt |-> TRUE]
-
-C12(b, v) ==
-    IF "C12" \notin Props THEN [f |-> {}, nt |-> FALSE]
-    ELSE IF tag.g = "c12v1" THEN C12v1(b, v)
-    ELSE IF tag.g = "c12v2" THEN C12v2(b, v)
-    ELSE [f |-> {}, nt |-> FALSE]
+C12(b, v) == IF "C12" \in Props THEN C12_Eval(tag, b, v) ELSE [f |-> {}, nt |-> FALSE]
 
 (***************************************************************************)
 (* Binding checks: the harness decides "not applicable" for the text entry *)
@@ -149,7 +69,8 @@ TraceRecv ==
                    \cup Sel("C15", C15_Fails(b, v))
                    \cup Sel("C16", C16_Fails(b, v))
                    \cup Sel("C17", C17_Fails(b, v, hist, Len(chunk)))
-                   \cup Sel("C18", C18_Fails(b, v)),
+                   \cup Sel("C18", C18_Fails(b, v))
+                   \cup Sel("DRIFT", DriftFails(b, v)),
                    Flag("C01", C01_Nontrivial(b, v))
                    \cup Flag("C02", C02_Nontrivial(b, v))
                    \cup Flag("C03", Len(b) > 0)
